@@ -178,7 +178,8 @@ func runC09(c *Ctx) {
 	if c.Tier == "thorough" {
 		n = 20000
 	}
-	rootsets := [][]string{{"/d"}, {"/d/"}, {"/"}, {"/d/e"}, {"/x", "/in"}, {"/x/", "/in/"}, {"/", "/in"}, {"//d//e/"}}
+	rootsets := [][]string{{"/d"}, {"/d/"}, {"/"}, {"/d/e"}, {"/x", "/in"}, {"/x/", "/in/"}, {"/", "/in"}, {"//d//e/"},
+		{"//"}, {"/."}, {"/./"}, {"/d", "//"}, {"/.", "/d"}} // roots that clean to "/" without being spelled "/"
 	for i := 0; i < n; i++ {
 		r := c.Rng.Fork()
 		roots := rootsets[i%len(rootsets)]
